@@ -110,6 +110,11 @@ pub fn run() -> Report {
         cases.push(Case { coin: cn, base: 0, times: vec![1000, 2000, 1500], mix: 1, cb_delta: 7, types_world: true, label: "every script type" });
         cases.push(Case { coin: cn, base: 0, times: vec![1000, 2000, 1500], mix: 4, cb_delta: 7, types_world: true, label: "every script type" });
     }
+    for cn in ["bitcoin", "litecoin"] {
+        for n in [2usize, 3, 4] {
+            cases.push(Case { coin: cn, base: 0, times: (0..n).map(|i| 1000 + 600 * i as u32).collect(), mix: 1, cb_delta: 0, types_world: false, label: "block sizes summing beyond 2^32" });
+        }
+    }
     for cn in ["testnet3", "dogecoin", "namecoin"] {
         cases.push(Case { coin: cn, base: 0, times: vec![1000, 2000, 1500], mix: 2, cb_delta: 7, types_world: true, label: "every script type" });
     }
@@ -130,7 +135,20 @@ pub fn run() -> Report {
             let wk = Worker::new(&root, w);
             let c = coin(case.coin);
             let chain = build(c, case);
-            let world = World::simple(c, &chain.blocks, case.base);
+            let mut world = World::simple(c, &chain.blocks, case.base);
+            let mut mblocks = chain.mblocks();
+            if case.label == "block sizes summing beyond 2^32" {
+                // the stored length prefix is what "block size" means (C01); prefixes of 3*10^9 make the sum exceed 32 bits with 3 blocks
+                world = World::new(c);
+                for (i, b) in chain.blocks.iter().enumerate() {
+                    let raw = b.ser();
+                    let prefix: u32 = 3_000_000_000u32.wrapping_add(i as u32 * 1000);
+                    let pos = world.place_raw(0, &raw, prefix);
+                    let h = case.base + i as u64;
+                    world.put_rec(&refmodel::world::IndexRec { hash: b.hash(), client_version: 270000, height: h, status: refmodel::world::ACTIVE, ntx: b.txs.len() as u64, file: 0, data_pos: pos, undo_pos: 9, header: b.header.ser() });
+                    mblocks[i].size = prefix;
+                }
+            }
             let spec = RunSpec::new(case.coin, "simplestats").range(if case.base > 0 { Some(case.base) } else { None }, None);
             let r = match wk.world_run(&world, &spec) {
                 Ok(r) => r,
@@ -144,7 +162,7 @@ pub fn run() -> Report {
             acc.count(case.label, 1);
             let tip = case.base + case.times.len() as u64 - 1;
             let (s, e) = (r.declared_start().unwrap_or(case.base), r.declared_end().unwrap_or(tip));
-            let range = in_range(&chain.mblocks(), s, e);
+            let range = in_range(&mblocks, s, e);
             let bad = check_stats(&r, c, &range);
             if let Some(t) = r.record("simplestats") {
                 acc.outcomes.insert(h8(t.as_bytes()));
